@@ -337,7 +337,12 @@ class FakeSocketMod(Strict):
     SO_REUSEADDR = 2
     error = OSError
 
-    def __init__(self, dns):
+    def __init__(self, dns, seam=None):
+        import socket as real_socket
+        self.gaierror = real_socket.gaierror
+        self._seam = seam
+        self.failing = set()   # hosts the resolver cannot resolve right now
+        self.resolve_failures = 0
         self.bound = {}      # (type, port) -> actor holding it
         self.foreign = set()  # (type, port) held by unrelated host processes
         self.actor = None
@@ -353,6 +358,12 @@ class FakeSocketMod(Strict):
         self.lookups += 1
         if host not in self.dns:
             raise HarnessError('unexpected DNS lookup %r' % host)
+        if host in self.failing:
+            # injected resolver failure (EAI_NONAME / EAI_AGAIN)
+            self.resolve_failures += 1
+            if self._seam is not None:
+                self._seam.failed = True
+            raise self.gaierror(-2, 'Name or service not known')
         return self.dns[host]
 
     def release(self, actor):
